@@ -178,6 +178,14 @@ def main(tier, seed, replay=None):
             sc = "f32" if k % 5 == 0 else "f64"
             cases.append(statsrun.gen_stats_case(rng, M, P, M + P + dof + (1 if k % 4 == 1 else 0), scalar=sc, weights=["none", "pos", "zeros", "neg"][k % 4] if dof > 2 else ["none", "pos", "neg"][k % 3], noise=0.1,
                                                  quant=(8 if k % 3 else None), probs=PROBS + BAD + (EDGE if sc == "f64" else [])))
+    # data in tiny units (f64: 2^-30, also 2^-60) and almost noise-free f32 data: bands on a small absolute scale
+    for j in range(6 if tier == "quick" else 60):
+        M, P = [(1, 1), (2, 1), (2, 2)][j % 3]
+        sc = "f32" if j % 3 == 2 else "f64"
+        cases.append(statsrun.gen_stats_case(rng, M, P, M + P + 1 + j % 5, scalar=sc, weights=["none", "pos"][j % 2],
+                                             noise=(0.05 if sc == "f64" else 1e-4), qbits=(10 if sc == "f64" else 30),
+                                             quant=None, probs=PROBS + BAD + (EDGE if sc == "f64" else []),
+                                             yscale=(2.0 ** -30 if j % 2 else 2.0 ** -60) if sc == "f64" else None))
     for k2, c in enumerate(cases):
         if k2 % 4 == 1 and not c["model"].get("builder_made"):
             # the model (every basis function and every derivative) is pinned to zero at one sample: its Jacobian row is exactly
@@ -186,9 +194,9 @@ def main(tier, seed, replay=None):
             rs[rng.randrange(c["meta"]["N"])] = 0.0
             c["model"]["rowscale"] = [hx(v, c["scalar"]) for v in rs]
             c["meta"]["zero_row"] = True
-    results, idx, hist, nerr = c13.run_stats_values(run, "C14", cases, binp, (20, 29, 30, 31), "confidence band")
+    results, idx, hist, nerr = c13.run_stats_values(run, "C14", cases, binp, (20, 21, 22, 23, 24, 25, 26, 27, 28, 29, 30, 31), "confidence band")
     # release profile (no debug assertions / overflow checks) on every second case
-    _, _, rhist, _ = c13.run_stats_values(run, "C14", [c for k, c in enumerate(cases) if k % 2 == 0], build_harness("release"), (20, 29, 30, 31),
+    _, _, rhist, _ = c13.run_stats_values(run, "C14", [c for k, c in enumerate(cases) if k % 2 == 0], build_harness("release"), (20, 21, 22, 23, 24, 25, 26, 27, 28, 29, 30, 31),
                                           "confidence band (release profile)", tag="rel")
     # many degrees of freedom (the quantile must still be Student's t with exactly N-M-P degrees of freedom): band relation only
     big = []
